@@ -65,6 +65,7 @@ Definition step_ok (prev : sobs) (o : sop) (e : option err) (ev : option (N * N 
   (* the robot is told of a swap only if it is on the ledger, escrowed *)
   match crt with None => true | Some l => forallb (fun p => bool_decide (o_find ob (fst p) = Some (snd p))) l end &&
   match e with
+  | Some EPanic => false                                     (* one step must never fail the whole batch *)
   | Some _ => same_obs prev ob && bool_decide (ev = None) &&           (* rejected: no effect, no key published *)
               match crt with Some (_ :: _) => false | _ => true end
   | None =>
